@@ -103,6 +103,8 @@ mod types;
 
 /// All functionality is covered by traits, such that consumers can utilize trait objects as desired.
 pub mod traits;
+#[cfg(feature = "verif-hooks")]
+pub mod verif_hooks;
 pub use crate::types::Ph;
 
 // Applies across all security parameter sets
